@@ -229,6 +229,66 @@ def _window(ctx, p, f, n, inner, iv):
     return bool(ends) and bool(results)
 
 
+def _single_element_pointer(p, f, e, depth=0):
+    """`e` is a pointer to ONE element of a container (&data_[i] with i in range). Follows it through pointer locals, returns
+    and callers: it may be dereferenced, compared, copied and returned; arithmetic on it, subscripting it or stepping it leaves the
+    element. Returns (ok, where/why) — None for a use the rule does not know."""
+    if depth > 4:
+        return None, 'too deep'
+    cur, par = e, f.parent(e)
+    while par is not None and par['k'] in ('ImplicitCastExpr', 'ParenExpr', 'ExprWithCleanups'):
+        cur, par = par, f.parent(par)
+    if par is None:
+        return True, ''
+    k = par['k']
+    if k == 'MemberExpr' or (k == 'UnaryOperator' and par.get('op') in ('*', '!')):
+        return True, ''
+    if k == 'BinaryOperator' and par.get('op') in ('==', '!=', '&&', '||'):
+        return True, ''
+    if k in ('IfStmt', 'WhileStmt', 'ConditionalOperator') and kids(par)[0] is cur:
+        return True, ''
+    if (k == 'BinaryOperator' and par.get('op') in ('+', '-', '<', '>', '<=', '>=')) or k == 'ArraySubscriptExpr' or \
+            (k == 'UnaryOperator' and par.get('op') in ('++', '--')) or (k == 'CompoundAssignOperator'):
+        return False, 'pointer arithmetic at %s' % f.loc(par)
+    if k == 'ReturnStmt':
+        for h, call in p.callers_of(f.name):
+            r = _single_element_pointer(p, h, call, depth + 1)
+            if r[0] is not True:
+                return r
+        return True, ''
+    vid = None
+    if k == 'VarDecl':
+        vid = par['id']
+    elif k == 'BinaryOperator' and par.get('op') == '=' and kids(par)[1] is cur:
+        vid = (strip_casts(kids(par)[0]).get('ref') or {}).get('id')
+        if (strip_casts(kids(par)[0]).get('ref') or {}).get('k') != 'Local':
+            return None, 'stored at %s' % f.loc(par)
+    if vid is not None:
+        for u in f.all_nodes():
+            if u['k'] == 'DeclRefExpr' and (u.get('ref') or {}).get('k') == 'Local' and u['ref'].get('id') == vid:
+                up_ = f.parent(u)
+                if up_ is not None and up_['k'] == 'BinaryOperator' and up_.get('op') == '=' and strip_casts(kids(up_)[0]) is u:
+                    continue            # the local is assigned here
+                r = _single_element_pointer(p, f, u, depth + 1)
+                if r[0] is not True:
+                    return r
+        return True, ''
+    if k in ('CallExpr', 'CXXMemberCallExpr', 'CXXOperatorCallExpr'):
+        g = p.funcs.get((par.get('callee') or {}).get('fid'))
+        args = kids(par)[1:]
+        pos = next((i for i, a in enumerate(args) if a is cur), None)
+        if g is not None and g.body is not None and pos is not None and pos < len(g.params):
+            pid = g.params[pos]['id']
+            for u in g.all_nodes():
+                if u['k'] == 'DeclRefExpr' and (u.get('ref') or {}).get('k') == 'Parm' and u['ref'].get('id') == pid:
+                    r = _single_element_pointer(p, g, u, depth + 1)
+                    if r[0] is not True:
+                        return r
+            return True, ''
+        return None, 'passed to %s at %s' % ((par.get('callee') or {}).get('n'), f.loc(par))
+    return None, '%s at %s' % (k, f.loc(par))
+
+
 def _pointer_escapes(ctx, p, funcs, iv=None):
     n_sites = 0
     for f in funcs:
@@ -274,6 +334,16 @@ def _pointer_escapes(ctx, p, funcs, iv=None):
                 continue
             n_sites += 1
             names = [short(x['ref']['n']) for x in walk(inner) if x.get('ref', {}).get('k') in ('Field', 'Global', 'StaticMember', 'Local', 'Parm')]
+            if 'data_' in names and n['k'] == 'UnaryOperator':
+                # &data_[i]: a pointer to one slot of the hash table; it must stay on that slot
+                ok_, why_ = _single_element_pointer(p, f, n)
+                if ok_ is None:
+                    raise AnalysisBroken('C10: the pointer to a hash-table slot formed at %s is used in a way the rule does not follow (%s)'
+                                         % (f.loc(n), why_))
+                ctx.ob('C10.PTR.slot', '%s:%s' % (short(f.name), canon(f, inner, inline=False)[:60]), ok_,
+                       'a pointer to one slot of the table is dereferenced, compared, copied or returned, never moved off the slot%s'
+                       % ('' if ok_ else ' — ' + why_), site=f.loc(n), sample=False)
+                continue
             if not any(nm in POINTER_BASES for nm in names):
                 w = _window(ctx, p, f, n, inner, iv) if iv is not None else None
                 if w is not None:
